@@ -288,6 +288,7 @@ func execReuse(c *fw.Ctx, cs c15Case, abstracts []*xmltree.Node) {
 			continue
 		}
 		c.Observe("reuse_kept_copies", "changed: "+what, 1)
+		c.Observe("reuse_changed_by_variant", cs.Variant, 1)
 		kt.run.report("reuse", reuseKey,
 			fmt.Sprintf("copy kept after capture %d of %d (%s): its %s changed once the variable captured the next document; it no longer denotes its source", i+1, len(kept), cs.Variant, what),
 			"reuse "+cs.Variant, observed, detail)
